@@ -18,6 +18,7 @@ func init() {
 		funcs := fs.String("funcs", "", "comma separated function breakpoints")
 		reqs := fs.String("reqs", "c", "request letters, e.g. ciiouc")
 		verbose := fs.Bool("v", false, "print tokens and CFG")
+		plainTrace := fs.Bool("plain", false, "predict from the closures of plain execution")
 		fs.Parse(args)
 		b, err := os.ReadFile(fs.Arg(0))
 		if err != nil {
@@ -52,7 +53,14 @@ func init() {
 			return nil
 		}
 		g := c19MakeCFG(ses.Dump, c19pcTab{})
-		steps, tdump, tso, tend := c19Trace(src, len(ls) > 0, to)
+		tmode := c19TraceCtx
+		if len(ls) > 0 {
+			tmode = c19TraceCtxPre
+		}
+		if *plainTrace {
+			tmode = c19TracePlain
+		}
+		steps, tdump, tso, tend := c19Trace(src, tmode, to)
 		tg := c19MakeCFG(tdump, c19pcTab{})
 		fmt.Printf("trace: end=%s sameStdout=%v sameShape=%v steps=%d\n", tend, tso == pso, c19SameShape(g, tg), len(steps))
 		toks, ok, why := c19Tokens(steps, tg, g)
